@@ -558,3 +558,70 @@ def eigenvectors_per_unit(tier, rng, rep):
             rep.case(key=(t, req_name), nontrivial=kind != "generic", sample=inp if (t, req_name) == (0, "repeated") else None)
             if len(rep.failures) >= 3:
                 return
+
+
+@bounded(P, "combine_preserves_units", functions=[PR + "ProjectiveObject.combine", PR + "ProjectiveObject.flatten_to_unit", PR + "Polygon._compute_aux_data", HY + "Segment._compute_aux_data"],
+         note="combine([A, B, ...]) of composites with equal and with different numbers of units: the result lists the units of A, then of B, in order, with each unit's primary AND "
+              "derived data (polygon edges, ideal endpoints of segments), also seen through get_edges, circle parameters and a following transformation")
+def combine_preserves_units(tier, rng, rep):
+    N = 40 if tier == 'thorough' else 10
+    rep.rule = "classes Point, Segment, hyperbolic and projective Polygon (4..5 vertices), TangentVector; parts of shapes (k,) + (k,), (k,) + (m,), () + (k,), (2,2) + (3,); then a rotation applied to the result"
+    rep.bound = f"{N} rounds x 5 classes x 4 shape pairs"
+
+    def klein(shape, n=2):
+        v = rng.normal(size=shape + (n,))
+        return v / np.linalg.norm(v, axis=-1, keepdims=True) * rng.uniform(0.05, 0.9, size=shape + (1,))
+
+    def mk(cls, shape):
+        if cls == "Point":
+            return h.Point(klein(shape), model="klein")
+        if cls == "Segment":
+            return h.Segment(h.Point(klein(shape + (2,)), model="klein"))
+        if cls == "HypPolygon":
+            return h.Polygon(h.Point(klein(shape + (4,)), model="klein"))
+        if cls == "ProjPolygon":
+            return pr.Polygon(rng.normal(size=shape + (5, 3)))
+        return h.TangentVector(h.Point(klein(shape), model="klein"), rng.normal(size=shape + (3,)))
+
+    def proj_eq(a, b):
+        a, b = np.asarray(a, dtype=float), np.asarray(b, dtype=float)
+        if a.shape != b.shape or not np.all(np.isfinite(a)):
+            return False
+        m = a[..., :, None] * b[..., None, :]
+        return bool(np.all(np.abs(m - np.swapaxes(m, -1, -2)) <= 1e-8 * max(1.0, np.max(np.abs(m)))))
+    for t in range(N):
+        k, m_ = int(rng.integers(2, 4)), int(rng.integers(2, 5))
+        for cls in ("Point", "Segment", "HypPolygon", "ProjPolygon", "TangentVector"):
+            for sa, sb in (((k,), (k,)), ((k,), (m_,)), ((), (k,)), ((2, 2), (3,))):
+                A_, B_ = mk(cls, sa), mk(cls, sb)
+                inp = {"class": cls, "shapes": [list(sa), list(sb)], "A": np.asarray(A_.proj_data).tolist(), "B": np.asarray(B_.proj_data).tolist()}
+
+                def body():
+                    C = type(A_).combine([A_, B_])
+                    units = [u for part in (A_, B_) for u in (part.flatten_to_unit() if part.shape else [part])]
+                    Cf = C.flatten_to_unit()
+                    if Cf.shape != (len(units),):
+                        rep.fail("combine_lists_all_units", f"{Cf.shape} for {len(units)} units", inp); return
+                    for i, u in enumerate(units):
+                        if not np.array_equal(np.asarray(Cf[i].proj_data), np.asarray(u.proj_data)):
+                            rep.fail("combine_preserves_units_and_order", f"unit {i}: primary data", inp); return
+                        if u.aux_data is not None:
+                            ai = None if Cf.aux_data is None else np.asarray(Cf.aux_data)[i] if np.asarray(Cf.aux_data).shape[0] == len(units) else None
+                            if ai is None or not proj_eq(ai.reshape(-1, ai.shape[-1]), np.asarray(u.aux_data).reshape(-1, np.asarray(u.aux_data).shape[-1])):
+                                rep.fail("combine_preserves_units_and_order", f"unit {i}: derived data of the combined object (shape {None if Cf.aux_data is None else np.asarray(Cf.aux_data).shape}) is not that of the unit (shape {np.asarray(u.aux_data).shape})", inp); return
+                            if not proj_eq(np.asarray(Cf[i].aux_data).reshape(-1, ai.shape[-1]), np.asarray(u.aux_data).reshape(-1, ai.shape[-1])):
+                                rep.fail("combine_preserves_units_and_order", f"unit {i}: derived data after indexing", inp); return
+                        if hasattr(u, "get_edges"):
+                            if not proj_eq(np.asarray(Cf.get_edges().proj_data)[i].reshape(-1, 3), np.asarray(u.get_edges().proj_data).reshape(-1, 3)):
+                                rep.fail("combine_preserves_units_and_order", f"unit {i}: get_edges()", inp); return
+                    if cls != "ProjPolygon":
+                        Rt = h.Isometry.standard_rotation(0.7)
+                        RC = (Rt @ C).flatten_to_unit()
+                        for i, u in enumerate(units):
+                            Ru = Rt @ u
+                            if not proj_eq(np.asarray(RC[i].proj_data).reshape(-1, 3), np.asarray(Ru.proj_data).reshape(-1, 3)) or (u.aux_data is not None and not proj_eq(np.asarray(RC.aux_data)[i].reshape(-1, 3), np.asarray(Ru.aux_data).reshape(-1, 3))):
+                                rep.fail("combine_preserves_units_and_order", f"unit {i} after a rotation of the combined object", inp); return
+                rep.attempt("combine_runs", inp, body)
+                rep.case(key=(t, cls, sa, sb), nontrivial=cls.endswith("Polygon"), sample=inp if (t, cls, sa) == (0, "HypPolygon", (k,)) and sb == (k,) else None)
+                if len(rep.failures) >= 3:
+                    return
